@@ -13,14 +13,18 @@
  *          js             JSON text: parse, serialise compact and formatted, duplicate, compare
  *          cb             CBOR bytes: walk all items (peek type, pop scalars, enter containers), then skip every top item
  *          dt:<fmt>       date-time text: parse (r = RFC 822, i = ISO 8601, b = basic, a = auto), format back in 2 forms
- *          pe / pd        percent-encode path + param / percent-decode */
+ *          pe / pd        percent-encode path + param / percent-decode
+ *          qp / la        a pseudo-random program on a priority queue / an array list of the thread's own (input: element
+ *                         size, steps, seed): everything popped or read, byte for byte */
 #include "vh_core.h"
 
 #include "vsched/vsched_impl.h"
 
 #include <aws/common/cbor.h>
 #include <aws/common/date_time.h>
+#include <aws/common/array_list.h>
 #include <aws/common/json.h>
+#include <aws/common/priority_queue.h>
 #include <aws/common/thread.h>
 #include <aws/common/uri.h>
 #include <aws/common/xml_parser.h>
@@ -280,6 +284,117 @@ static void do_date(struct op *o, struct dg *d) {
     dg_cur(d, aws_byte_cursor_from_buf(&out));
 }
 
+/* ---- containers: an operation is a whole pseudo-random program on a container of its own (input = element size, two bytes,
+ * number of steps, four seed bytes).  Nothing is shared with other threads as far as a caller can tell, so everything the
+ * program observes - every element popped or read, byte for byte - is a function of the input alone. */
+static int cmp_first(const void *a, const void *b) {
+    uint8_t x = *(const uint8_t *)a, y = *(const uint8_t *)b;
+    return x < y ? -1 : (x > y ? 1 : 0);
+}
+static uint32_t lcg(uint32_t *x) {
+    *x = *x * 1103515245u + 12345u;
+    return *x >> 8;
+}
+static void fill_elem(uint8_t *e, size_t isz, uint32_t key, uint32_t step) {
+    for (size_t i = 0; i < isz; ++i) {
+        e[i] = (uint8_t)(key * 31u + step * 7u + (uint32_t)i * 13u);
+    }
+    e[0] = (uint8_t)key;
+}
+static void do_pq(struct op *o, struct dg *d) {
+    if (o->len < 7) {
+        return;
+    }
+    size_t isz = ((size_t)o->in[0] << 8 | o->in[1]) ? ((size_t)o->in[0] << 8 | o->in[1]) : 1;
+    int n = o->in[2];
+    uint32_t x = (uint32_t)o->in[3] << 24 | (uint32_t)o->in[4] << 16 | (uint32_t)o->in[5] << 8 | o->in[6];
+    struct aws_priority_queue q;
+    aws_priority_queue_init_dynamic(&q, vh_alloc(), 2, isz, cmp_first);
+    struct aws_priority_queue_node nodes[6];
+    for (int h = 0; h < 6; ++h) {
+        aws_priority_queue_node_init(&nodes[h]);
+    }
+    uint8_t *e = malloc(isz), *out = malloc(isz);
+    for (int step = 0; step < n; ++step) {
+        uint32_t r = lcg(&x);
+        size_t sz = aws_priority_queue_size(&q);
+        if (r % 4 != 0 || sz == 0) {
+            fill_elem(e, isz, r >> 4, (uint32_t)step);
+            int h = (int)(r % 6);
+            if ((r & 64) && !aws_priority_queue_node_is_in_queue(&nodes[h])) {
+                dg_rc(d, aws_priority_queue_push_ref(&q, e, &nodes[h]));
+            } else {
+                dg_rc(d, aws_priority_queue_push(&q, e));
+            }
+        } else if (r & 128) {
+            int h = (int)((r >> 9) % 6);
+            if (aws_priority_queue_node_is_in_queue(&nodes[h])) {
+                dg_rc(d, aws_priority_queue_remove(&q, out, &nodes[h]));
+                dg_bytes(d, out, isz);
+            }
+        } else {
+            dg_rc(d, aws_priority_queue_pop(&q, out));
+            dg_bytes(d, out, isz);
+        }
+        if (r & 32) {
+            vs_point();
+        }
+    }
+    while (aws_priority_queue_size(&q)) {
+        dg_rc(d, aws_priority_queue_pop(&q, out));
+        dg_bytes(d, out, isz);
+    }
+    aws_priority_queue_clean_up(&q);
+    free(e);
+    free(out);
+}
+static void do_al(struct op *o, struct dg *d) {
+    if (o->len < 7) {
+        return;
+    }
+    size_t isz = ((size_t)o->in[0] << 8 | o->in[1]) ? ((size_t)o->in[0] << 8 | o->in[1]) : 1;
+    int n = o->in[2];
+    uint32_t x = (uint32_t)o->in[3] << 24 | (uint32_t)o->in[4] << 16 | (uint32_t)o->in[5] << 8 | o->in[6];
+    struct aws_array_list l;
+    aws_array_list_init_dynamic(&l, vh_alloc(), 1, isz);
+    uint8_t *e = malloc(isz);
+    for (int step = 0; step < n; ++step) {
+        uint32_t r = lcg(&x);
+        size_t len = aws_array_list_length(&l);
+        switch (len ? r % 6 : 0) {
+            case 0:
+            case 1:
+                fill_elem(e, isz, r >> 4, (uint32_t)step);
+                dg_rc(d, (r & 64) ? aws_array_list_push_back(&l, e) : aws_array_list_push_front(&l, e));
+                break;
+            case 2:
+                aws_array_list_swap(&l, (r >> 8) % len, (r >> 14) % len);
+                break;
+            case 3:
+                aws_array_list_sort(&l, cmp_first);
+                break;
+            case 4:
+                dg_rc(d, aws_array_list_get_at(&l, e, (r >> 8) % len));
+                dg_bytes(d, e, isz);
+                break;
+            default:
+                dg_rc(d, aws_array_list_back(&l, e));
+                dg_bytes(d, e, isz);
+                dg_rc(d, aws_array_list_pop_back(&l));
+                break;
+        }
+        if (r & 32) {
+            vs_point();
+        }
+    }
+    for (size_t i = 0; i < aws_array_list_length(&l); ++i) {
+        aws_array_list_get_at(&l, e, i);
+        dg_bytes(d, e, isz);
+    }
+    aws_array_list_clean_up(&l);
+    free(e);
+}
+
 static void perform(const char *ev, int k, int i) {
     struct op *o = &ops[i];
     struct dg d;
@@ -296,6 +411,10 @@ static void perform(const char *ev, int k, int i) {
         do_cbor(o, &d);
     } else if (!strcmp(o->kind, "dt")) {
         do_date(o, &d);
+    } else if (!strcmp(o->kind, "qp")) {
+        do_pq(o, &d);
+    } else if (!strcmp(o->kind, "la")) {
+        do_al(o, &d);
     }
     vh_begin(ev);
     vh_int("k", k);
